@@ -27,8 +27,8 @@ RULE = ('one run = one seeded history through a live connection on a DB '
         'creation, pack to an older time), with the simulated clock spacing '
         'the commits; then historical connections are opened at every '
         'transaction in every input form (at= / before= x raw id, id+1, '
-        'naive datetime between two transactions) through a small '
-        'historical pool; while each is open the live connection keeps '
+        'naive and timezone-aware datetime between two transactions) '
+        'through a small historical pool; while each is open the live connection keeps '
         'committing and the storage is packed to older times, the '
         'historical connection re-reads across boundaries and cache '
         'minimisation; oracle: every value equals the model state at the '
@@ -216,12 +216,23 @@ def run(case):
                                        p64(u64(raw) + 1)))
                         points.append(('before-datetime', i, {'before': dt},
                                        raw))
+                        # the same instant as a timezone-aware datetime
+                        # (DB.open documents these as supported)
+                        rz = random.Random(ctx.subseed(case['seed'], 'tz', i))
+                        off = rz.choice((0, 120, -300, 330, -570, 765))
+                        adt = datetime.datetime.fromtimestamp(
+                            mid, datetime.timezone(
+                                datetime.timedelta(minutes=off)))
+                        points.append(('at-aware', i, {'at': adt},
+                                       p64(u64(raw) + 1)))
+                        points.append(('before-aware', i, {'before': adt},
+                                       raw))
         r = random.Random(ctx.subseed(case['seed'], 'points'))
         r.shuffle(points)
         later = list(case['later'])
         import zlib
         hh = zlib.crc32(repr(case['ops']).encode())
-        for form, i, kw, bound in points[:14]:
+        for form, i, kw, bound in points[:18]:
             if bound <= last_pack_stop:
                 continue
             evals += 1
